@@ -1,6 +1,6 @@
 package sigagg
 
-// C18 (signature aggregator): Aggregate with two subscribers. The partial signatures are real threshold BLS partial
+// C18 (signature aggregator): Aggregate with three subscribers. The partial signatures are real threshold BLS partial
 // signatures (2 of 3, over a fixed message: C18 is not about signature validity, the injected verify function
 // accepts). Parties: the map of partials handed in, each subscriber's aggregated set.
 
@@ -44,7 +44,7 @@ func c18spec(u alias.Unit, master core.SignedData, sigs map[int]core.Signature) 
 			w.Fail("new: %v", err)
 			return
 		}
-		for _, n := range []string{"sub1", "sub2"} {
+		for _, n := range []string{"sub1", "sub2", "sub3"} {
 			n := n
 			agg.Subscribe(func(_ context.Context, _ core.Duty, set core.SignedDataSet) error {
 				w.Sub(n, set)
